@@ -4,6 +4,7 @@
 //! text*, never from the derive macro.
 
 use crate::model::*;
+#[cfg(feature = "bit-vec")]
 use bitvec::prelude::{BitBox, BitOrder, BitStore, BitVec, Lsb0, Msb0};
 use core::marker::PhantomData;
 use core::num::*;
@@ -395,6 +396,7 @@ impl<T: Modelled, const N: usize> Modelled for [T; N] {
 	}
 }
 
+#[cfg(feature = "generic-array")]
 impl<T: Modelled, N: generic_array::ArrayLength<T>> Modelled for generic_array::GenericArray<T, N> {
 	fn ty() -> Ty {
 		Ty::Array(Box::new(T::ty()), N::to_usize())
@@ -572,12 +574,15 @@ impl<T: Modelled> Modelled for RangeInclusive<T> {
 	}
 }
 
+#[cfg(feature = "bit-vec")]
 pub trait OrderInfo {
 	const MSB0: bool;
 }
+#[cfg(feature = "bit-vec")]
 impl OrderInfo for Lsb0 {
 	const MSB0: bool = false;
 }
+#[cfg(feature = "bit-vec")]
 impl OrderInfo for Msb0 {
 	const MSB0: bool = true;
 }
@@ -591,6 +596,7 @@ pub fn bits_heap<S>(bits: usize, acc: &mut Heap) {
 	}
 }
 
+#[cfg(feature = "bit-vec")]
 impl<S: BitStore, O: BitOrder + OrderInfo> Modelled for BitVec<S, O> {
 	fn ty() -> Ty {
 		Ty::Bits { store_bytes: core::mem::size_of::<S>() as u8, msb0: O::MSB0, boxed: false }
@@ -641,6 +647,7 @@ impl<S: BitStore, O: BitOrder + OrderInfo> Modelled for BitVec<S, O> {
 	}
 }
 
+#[cfg(feature = "bit-vec")]
 impl<S: BitStore, O: BitOrder + OrderInfo> Modelled for BitBox<S, O> {
 	fn ty() -> Ty {
 		Ty::Bits { store_bytes: core::mem::size_of::<S>() as u8, msb0: O::MSB0, boxed: true }
@@ -656,6 +663,7 @@ impl<S: BitStore, O: BitOrder + OrderInfo> Modelled for BitBox<S, O> {
 	}
 }
 
+#[cfg(feature = "bytes")]
 impl Modelled for bytes::Bytes {
 	fn ty() -> Ty {
 		Ty::seq_m(Ty::u(1), SeqKind::Bytes, 1)
